@@ -519,10 +519,6 @@ package validate
 //@   requires[C06] jsonOrNum(data) && data != nil
 //@   pure
 //@   ensures[C06] (result0 == "number") == isF64(data)
-//@ func (*schemaSliceValidator).Validate
-//@   requires[C06] isJSON(data) && (data == nil || kind(data) == 23)
-//@   modifies *
-//@   ensures[C06] result != nil
 //@ func (*objectValidator).Validate
 //@   requires[C06] isJSON(data)
 //@   modifies *
@@ -550,11 +546,19 @@ package validate
 //@   modifies r.fieldSchemata
 //@ func (*Result).mergeForSlice
 //@   requires[C06] other == nil || kind(slice) == 23
-//@   modifies *
-//@   ensures[C06] result == r
+//@   requires[C04,C20] r != nil && !redeemed(r) && wfRes(r) && (other == nil || (!redeemed(other) && mergeableInto(r, other))) && !redeemed(emptyResult)
+//@   modifies r.Errors, r.Warnings, r.MatchCount, r.fieldSchemata, r.itemSchemata, r.cachedFieldSchemata, r.cachedItemSchemata, elems(r.Errors), elems(r.Warnings)
+//@   modifies when(other != nil && other != emptyResult && other.wantsRedeemOnMerge, redeemed(other))
+//@   ensures[C06,C04] result == r && wfRes(r) && !redeemed(r)
+//@   ensures[C04] implies(other != nil && other != emptyResult, redeemed(other) == old(other.wantsRedeemOnMerge))
+//@   ensures[C04] (arr(r.Errors) == old(arr(r.Errors)) || fresh(arr(r.Errors))) && (arr(r.Warnings) == old(arr(r.Warnings)) || fresh(arr(r.Warnings)))
 //@ func (*Result).mergeForField
-//@   modifies *
-//@   ensures[C06] result == r
+//@   requires[C04,C20] r != nil && !redeemed(r) && wfRes(r) && (other == nil || (!redeemed(other) && mergeableInto(r, other))) && !redeemed(emptyResult)
+//@   modifies r.Errors, r.Warnings, r.MatchCount, r.fieldSchemata, r.itemSchemata, r.cachedFieldSchemata, r.cachedItemSchemata, elems(r.Errors), elems(r.Warnings)
+//@   modifies when(other != nil && other != emptyResult && other.wantsRedeemOnMerge, redeemed(other))
+//@   ensures[C06,C04] result == r && wfRes(r) && !redeemed(r)
+//@   ensures[C04] implies(other != nil && other != emptyResult, redeemed(other) == old(other.wantsRedeemOnMerge))
+//@   ensures[C04] (arr(r.Errors) == old(arr(r.Errors)) || fresh(arr(r.Errors))) && (arr(r.Warnings) == old(arr(r.Warnings)) || fresh(arr(r.Warnings)))
 //@ func (*Result).keepRelevantErrors
 //@   requires[C06] nonnilE(r.Errors) && nonnilE(r.Warnings)
 //@   modifies *
@@ -767,6 +771,19 @@ package validate
 //@   ensures[C04,C11] s == nil || redeemed(s) == old(s.Options.recycleValidators)
 //@   ensures[C04,C06] result != nil && okResult(result)
 //@   on_panic ensures[C11] s == nil || redeemed(s) == old(s.Options.recycleValidators)
+
+// Array validator: no stored children (one SchemaValidator is built, run and thereby redeemed per element).
+//@ pred liveRes(res *Result) = res != nil && res != emptyResult && !redeemed(res) && fromPool(res) && wfRes(res)
+//@ func (*schemaSliceValidator).Validate
+//@   effects validation
+//@   maypanic
+//@   requires[C06] isJSON(data) && (data == nil || kind(data) == 23)
+//@   ensures[C04,C11] redeemed(s) == old(s.Options.recycleValidators)
+//@   ensures[C04,C06] result != nil && okResult(result)
+//@   on_panic ensures[C11] redeemed(s) == old(s.Options.recycleValidators)
+//@   loop 1 invariant 0 <= i && i <= size && !redeemed(s) && liveRes(result) && s.Items != nil && s.Items.Schema != nil && s.Options == old(s.Options)
+//@   loop 2 invariant 0 <= i && i <= itemsSize && s.Items != nil && itemsSize == len(s.Items.Schemas) && !redeemed(s) && liveRes(result) && s.Options == old(s.Options)
+//@   loop 3 invariant itemsSize <= i && !redeemed(s) && liveRes(result) && s.AdditionalItems != nil && s.AdditionalItems.Schema != nil && s.Options == old(s.Options)
 
 //@ func (*schemaPropsValidator).redeemChildren
 //@   effects validation
